@@ -58,17 +58,23 @@ pub fn guarded<F: FnOnce() -> Value>(f: F) -> Value {
     }
 }
 
-/// Same as `guarded` but runs on a fresh thread with a large stack (parser/lowerer recursion).
+/// The whole request loop already runs on one big-stack thread (see main), so this is `guarded`.
 pub fn guarded_big_stack<F: FnOnce() -> Value + Send + 'static>(f: F) -> Value {
-    let h = std::thread::Builder::new()
-        .stack_size(256 * 1024 * 1024)
-        .spawn(move || guarded(f))
-        .unwrap();
-    h.join().unwrap_or_else(|_| json!({"panic": "thread join failed"}))
+    guarded(f)
 }
 
 fn main() {
     install_panic_hook();
+    // one long-lived worker with a large stack: parser/lowerer recursion must not be limited by the 8 MB main stack,
+    // and spawning a big-stack thread per request costs more than the request
+    let h = std::thread::Builder::new()
+        .stack_size(512 * 1024 * 1024)
+        .spawn(real_main)
+        .unwrap();
+    let _ = h.join();
+}
+
+fn real_main() {
     let args: Vec<String> = std::env::args().collect();
     if args.len() < 2 {
         eprintln!("usage: vh <subcommand>   (JSON lines on stdin)");
